@@ -387,6 +387,48 @@ def match_parts_to_paths(r, ps, us, upd):
     return pairing
 
 
+def gen_alignment(r, ps, rng):
+    """An alignment (list of dicts as alignment_from_matchfile gives them) built from the notes of variant j."""
+    j = rng.randrange(len(ps))
+    ids = [n[0] for n in expected_notes(r, ps[j], True) if n[5] == "note" and n[0] is not None]
+    if not ids:
+        return None
+    mode = rng.random()
+    if mode < 0.35:
+        pick = list(ids)                                       # exactly the notes of variant j
+    else:
+        pick = [i for i in ids if rng.random() < 0.6] or ids[:1]
+    if mode > 0.7 and len(ps) > 1:                             # plus notes only another variant has
+        k = rng.randrange(len(ps))
+        other = [n[0] for n in expected_notes(r, ps[k], True) if n[5] == "note" and n[0] is not None]
+        pick += [i for i in other if i not in ids and rng.random() < 0.5]
+    ali = []
+    for i in pick:
+        ali.append({"label": "deletion" if rng.random() < 0.15 else "match", "score_id": i, "performance_id": "p"})
+    if rng.random() < 0.3:
+        ali.append({"label": "insertion", "performance_id": "q"})
+    if rng.random() < 0.2:
+        ali.append({"label": "match", "score_id": "zz9-1", "performance_id": "p"})    # an id no variant has
+    rng.shuffle(ali)
+    return ali
+
+
+def aligned_ids(ali):
+    return [a["score_id"] for a in ali if a.get("label") in ("match", "deletion")]
+
+
+def c_align_entry(r, ali):
+    """(EAlign [mkW oid suffix ...]) for the score ids of an alignment."""
+    by_id = {}
+    for o in r.part.iter_all(__import__("partitura").score.GenericNote, include_subclasses=True):
+        by_id[o.id] = o._pv
+    out = []
+    for sid in aligned_ids(ali):
+        base, _, suf = sid.rpartition("-")
+        out.append("(mkW %s %s)" % (cz(by_id.get(base, -99)), cz(int(suf) if suf.isdigit() else 0)))
+    return "(EAlign %s)" % clist(out)
+
+
 def run_impl(spec, variant_budget=6, rng=None, part=None):
     """Build the part (or take the part of an earlier step of the history), run every entry point, collect
     observations."""
@@ -423,15 +465,20 @@ def run_impl(spec, variant_budget=6, rng=None, part=None):
             return
         r.variants.append((label, path, upd, u))
 
+    def tagged(u, entry):
+        u._pv_entry = entry          # Coq term naming the entry point (Model/C09_api.v: entry)
+        return u
+
     for il in (True, False):
         ps = r.paths[(False, True, il)]
         if ps:
             for upd in (True, False):
                 call("unfold_part_maximal(update_ids=%s, ignore_leaps=%s)" % (upd, il), ps[0], upd,
-                     lambda upd=upd, il=il: S.unfold_part_maximal(part, update_ids=upd, ignore_leaps=il))
+                     lambda upd=upd, il=il: tagged(S.unfold_part_maximal(part, update_ids=upd, ignore_leaps=il),
+                                                   "(EMaximal %s)" % cbool(il)))
     ps = r.paths[(True, False, True)]
     if ps:
-        call("unfold_part_minimal", ps[0], False, lambda: S.unfold_part_minimal(part))
+        call("unfold_part_minimal", ps[0], False, lambda: tagged(S.unfold_part_minimal(part), "EMinimal"))
     ps = r.paths[(False, False, True)]
     if ps and len(ps) <= 64:
         upd = True if rng is None else rng.random() < 0.5
@@ -441,8 +488,17 @@ def run_impl(spec, variant_budget=6, rng=None, part=None):
                 r.crashes.append(("iter_unfolded_parts", "%d parts for %d paths" % (len(us), len(ps))))
             else:
                 pairing = match_parts_to_paths(r, ps, us, upd)
+                # every part is paired and counted; the property statement is evaluated on all of them up to
+                # 16 parts, beyond that on the first, the last and a random selection
+                keep = set(range(len(us)))
+                if len(us) > 16:
+                    keep = {0, len(us) - 1} | set((rng or __import__("random").Random(0)).sample(range(len(us)), 14))
+                if sorted(pairing) != list(range(len(ps))):
+                    r.crashes.append(("iter_unfolded_parts", "the parts are not one per path"))
                 for j, u in enumerate(us):
-                    r.variants.append(("iter_unfolded_parts(update_ids=%s)[%d]" % (upd, j), ps[pairing[j]], upd, u))
+                    if j in keep:
+                        r.variants.append(("iter_unfolded_parts(update_ids=%s)[%d]" % (upd, j), ps[pairing[j]], upd,
+                                           tagged(u, "EIter")))
         except Exception as e:  # noqa
             r.crashes.append(("iter_unfolded_parts", "%s: %s" % (type(e).__name__, e)))
         # the other public constructors: new_part_from_path on a Path of another policy, make_score_variants
@@ -452,7 +508,8 @@ def run_impl(spec, variant_budget=6, rng=None, part=None):
                 j = rng.randrange(len(r.pathobjs[pol]))
                 updp = rng.random() < 0.5
                 call("new_part_from_path(get_paths%r[%d], update_ids=%s)" % (pol, j, updp), r.paths[pol][j], updp,
-                     lambda: S.new_part_from_path(r.pathobjs[pol][j], part, update_ids=updp))
+                     lambda: tagged(S.new_part_from_path(r.pathobjs[pol][j], part, update_ids=updp),
+                                    "(EFromPath %s %s %s)" % (cbool(pol[0]), cbool(pol[1]), cbool(pol[2]))))
             try:
                 svs = S.make_score_variants(part)
                 if len(svs) != len(ps):
@@ -461,20 +518,22 @@ def run_impl(spec, variant_budget=6, rng=None, part=None):
                     j = rng.randrange(len(svs))
                     u = svs[j].create_variant_part()
                     pairing = match_parts_to_paths(r, ps, [u], False)
-                    r.variants.append(("make_score_variants[%d].create_variant_part()" % j, ps[pairing[0]], False, u))
+                    r.variants.append(("make_score_variants[%d].create_variant_part()" % j, ps[pairing[0]], False,
+                                       tagged(u, "EIter")))
             except Exception as e:  # noqa
                 r.crashes.append(("make_score_variants", "%s: %s" % (type(e).__name__, e)))
-        # unfold_part_alignment: an alignment naming exactly the notes of variant j selects a
-        # variant containing all of them with the fewest notes
-        if rng is not None and len(ps) >= 1:
-            j = rng.randrange(len(ps))
-            want = expected_notes(r, ps[j], True)
-            ids = [n[0] for n in want if n[5] != "rest" and n[0] is not None]
-            if ids:
-                ali = [{"label": "match", "score_id": i, "performance_id": "p"} for i in ids]
+        # unfold_part_alignment: an alignment naming some of the notes of variant j (sometimes also notes of
+        # another variant, insertions, deletions, unknown ids)
+        if rng is not None and 1 <= len(ps) <= 16:
+            ali = gen_alignment(r, ps, rng)
+            if ali:
+                r.alignment_input = json.loads(json.dumps(ali))
                 try:
                     u = S.unfold_part_alignment(part, ali)
-                    r.alignment = (j, u)
+                    pairing = match_parts_to_paths(r, ps, [u], True)
+                    r.alignment = (ps[pairing[0]], u)
+                    r.variants.append(("unfold_part_alignment", ps[pairing[0]], True,
+                                       tagged(u, c_align_entry(r, r.alignment_input))))
                 except Exception as e:  # noqa
                     r.crashes.append(("unfold_part_alignment", "%s: %s" % (type(e).__name__, e)))
     r.fp1 = fingerprint(part)
@@ -764,6 +823,143 @@ def path_measures(r, path):
     return seq
 
 
+def spans_of(spec):
+    """The repeated sections of a spec as disjoint spans [(start, end, 'rep' | 'volta', endings)] in measures,
+    or None when repeats overlap / nest or an ending belongs to no group."""
+    groups = {g[0]: g for g in spec.get("volta_groups", [])}
+    if spec.get("endings") and not groups:
+        return None
+    out = [(a, g[1][-1][1], "volta", g[1]) for a, g in groups.items()]
+    gend = {a: g[1][-1][1] for a, g in groups.items()}
+    for a, b in spec.get("repeats", []):
+        if a in gend and b <= gend[a]:
+            continue
+        out.append((a, b, "rep", None))
+    out.sort(key=lambda x: (x[0], x[1]))
+    if any(x[1] > y[0] for x, y in zip(out, out[1:])) or any(a >= b for a, b, _, _ in out):
+        return None
+    if sorted((e[0], e[1]) for g in groups.values() for e in g[1]) != sorted((a, b) for a, b, _ in spec.get("endings", [])):
+        return None
+    return out
+
+
+def readings(spans, x, y, mode):
+    """The ways to play the measures [x, y): mode 'all' = every simple repeat once or twice, 'max' = twice and
+    every ending pass by pass, 'min' = once, with the last ending.  None: not defined (endings under 'all')."""
+    out = [[]]
+    sp = {s[0]: s for s in spans}
+    m = x
+    while m < y:
+        if m in sp:
+            a, b, kind, ends = sp[m]
+            if b > y:
+                return None
+            if kind == "rep":
+                body = list(range(a, b))
+                opts = {"all": [body + body, body], "max": [body + body], "min": [body]}[mode]
+            else:
+                if mode == "all":
+                    return None
+                nums = sorted(k for e in ends for k in e[2])
+                seq = []
+                for p in (nums if mode == "max" else [nums[-1]]):
+                    seq += list(range(a, ends[0][0]))
+                    for es, ee, en in ends:
+                        if p in en:
+                            seq += list(range(es, ee))
+                opts = [seq]
+            out = [o + v for o in out for v in opts]
+            m = b
+        else:
+            out = [o + [m] for o in out]
+            m += 1
+    return out
+
+
+def nav_reference(spec, policy, ign):
+    """What the notation permits for a part with ONE jump (D.C., or D.S. with its Segno), optionally al Fine or
+    al Coda, and non-nested repeats / endings, none of the marks inside a repeated section (same definition as
+    nav_reference of coq/Proofs/C09_nav.v): the straight reading, and the readings taking the jump
+    [0, jump) + [destination, Fine | To Coda | end) (+ [Coda, end)); after the jump every repeat once unless
+    leaps are ignored.  Returns the list of measure sequences of the policy, 'K2' for the arrangements of known
+    finding C09-K2, None where no reference is defined (other arrangements on which partitura deviates: a
+    repeated section ending at the jump mark, a Coda directly at the jump mark followed by repeats)."""
+    n = len(spec["measures"])
+    spans = spans_of(spec)
+    jumps = [(k, t) for k in ("dacapo", "dalsegno") for t in spec.get(k, [])]
+    if spans is None or len(jumps) != 1:
+        return None
+    jk, jp = jumps[0]
+    segno, fine, tocoda, coda = (spec.get(k, []) for k in ("segno", "fine", "tocoda", "coda"))
+    if jk == "dalsegno":
+        if len(segno) != 1:
+            return None
+        d = segno[0]
+    else:
+        if segno:
+            return None
+        d = 0
+    if len(fine) > 1 or len(tocoda) > 1 or len(coda) > 1 or (fine and tocoda) or (bool(tocoda) != bool(coda)):
+        return None
+    marks = [jp, d] + fine + tocoda + coda
+    if any(a < m < b for a, b, _, _ in spans for m in marks):
+        return None
+    stop = (fine or tocoda or [None])[0]
+    if not d < jp <= n or (stop is not None and not d < stop < jp) or (coda and not jp <= coda[0] < n):
+        return None
+    bset = {0, n} | set(marks)
+    for a, b, kind, ends in spans:
+        bset |= {a, b} | ({x for e in ends for x in e[:2]} if ends else set())
+    nb = min(b for b in bset if b > d)
+    if nb == jp or (d != 0 and tocoda and nb == tocoda[0]):
+        return "K2"
+    if any(b == jp for a, b, _, _ in spans) or (coda and coda[0] == jp and any(a >= jp for a, b, _, _ in spans)):
+        return None
+    m2 = policy if ign else "min"
+    straight = readings(spans, 0, n, policy)
+    v1s = readings(spans, 0, jp, policy)
+    v2s = readings(spans, d, n if stop is None else stop, m2)
+    v3s = readings(spans, coda[0], n, m2) if (coda and stop is not None) else [[]]
+    if None in (straight, v1s, v2s, v3s):
+        return None
+    taken = [a + b + c for a in v1s for b in v2s for c in v3s]
+    if policy == "all":
+        return taken + straight
+    if policy == "max":
+        return taken if jp == n else straight
+    return straight if jp == n else taken
+
+
+def oracle_navigation(r):
+    """Paths of a part with navigation marks against the reading of the notation (sets of measure sequences),
+    and: a legal arrangement has unfoldings (get_paths does not raise)."""
+    ref0 = nav_reference(r.spec, "max", True)
+    if ref0 is None:
+        return []
+    bad = []
+    raised = [pol for pol in POLICIES if r.paths[pol] is None]
+    if raised:
+        bad.append(("total", "get_paths%r raised %s on a legal arrangement of navigation marks%s"
+                    % (raised[0], r.errors.get(raised[0]),
+                       " (the jump is not recognised as a leap: its destination segment ends at the jump / To Coda mark)"
+                       if ref0 == "K2" else "")))
+    if ref0 == "K2":
+        return bad
+    for pol in POLICIES:
+        if r.paths[pol] is None:
+            continue
+        nr, ar, ign = pol
+        want = nav_reference(r.spec, "min" if nr else ("max" if ar else "all"), ign or nr)
+        if want is None:
+            continue
+        got = sorted({tuple(path_measures(r, q)) for q in r.paths[pol]})
+        if got != sorted({tuple(w) for w in want}):
+            bad.append(("navigation", "get_paths%r plays the measure sequences %r, the navigation marks permit %r"
+                        % (pol, [list(g) for g in got[:4]], sorted(want)[:4])))
+            break
+    return bad
+
+
 def oracle_paths(r):
     bad = []
     for pol in POLICIES:
@@ -811,6 +1007,18 @@ def oracle_paths(r):
     return bad[:8]
 
 
+def needs_twin(spec):
+    """Where the part starts can only matter to the marks that refer to the beginning: a da capo, an ending that
+    repeats from the beginning without a repeat sign; every such case is compared with its twin, of the others
+    (which the first time point reaches only through the first boundary) every fourth."""
+    if spec.get("dacapo") or spec.get("dalsegno") or spec.get("t0"):
+        return True
+    for g in spec.get("volta_groups", []):
+        if g[0] == 0:
+            return True
+    return len(spec.get("notes", [])) % 4 == 0
+
+
 def oracle_twin(r):
     """The unfolding does not depend on where the part starts on its time axis: the same part with another
     first time point has the same paths (as measure sequences) for every policy."""
@@ -843,10 +1051,50 @@ def oracle_twin(r):
     return bad[:2]
 
 
+def expected_heads(r, path):
+    """Ids (update_ids=True) of the notes of the unfolding along `path` that do not continue a tie: the copy of
+    a note whose tie_prev partner is copied in the same visit is not counted by Part.notes_tied."""
+    prev = {b: a for a, b in r.spec.get("ties", [])}
+    start = {n[0]: n[1] for n in orig_notes(r)}
+    vis, _ = visits_of(r, path)
+    seen = Counter()
+    out = []
+    for (s, e, off) in vis:
+        seen[(s, e)] += 1
+        for (nid, st, dur, pitch, voice, staff, kind) in orig_notes(r):
+            if kind == "note" and nid is not None and s <= st < e:
+                if nid in prev and s <= start[prev[nid]] < e:
+                    continue
+                out.append("%s-%d" % (nid, seen[(s, e)]))
+    return out
+
+
+def oracle_alignment(r):
+    """unfold_part_alignment returns the variant covering most of the aligned score ids, among those one with
+    the fewest notes (tied notes counted once)."""
+    path, u = r.alignment
+    ps = r.paths[(False, False, True)]
+    ids = aligned_ids(r.alignment_input)
+    got = sorted(n.id for n in u.notes_tied)
+    heads = [expected_heads(r, p) for p in ps]
+    score = [(sum(1 for i in ids if i in set(h)), len(h)) for h in heads]
+    mine = [k for k, h in enumerate(heads) if sorted(h) == got]
+    if not mine:
+        return [("alignment", "unfold_part_alignment returned a part whose notes %r... are those of no variant" % (got[:6],))]
+    beats = lambda a, b: a[0] > b[0] or (a[0] == b[0] and a[1] < b[1])
+    if all(any(beats(score[k], score[m]) for k in range(len(ps))) for m in mine):
+        best = max(score, key=lambda x: (x[0], -x[1]))
+        return [("alignment", "unfold_part_alignment returned a variant covering %d of the %d aligned ids with %d notes; "
+                 "a variant covering %d with %d notes exists" % (score[mine[0]][0], len(ids), score[mine[0]][1], best[0], best[1]))]
+    return []
+
+
 def oracle(r):
     """All direct checks of one run; list of (kind, message, extra)."""
     bad = [(k, m, {}) for k, m in oracle_paths(r)]
-    bad += [(k, m, {}) for k, m in oracle_twin(r)]
+    bad += [(k, m, {}) for k, m in oracle_navigation(r)]
+    if needs_twin(r.spec):
+        bad += [(k, m, {}) for k, m in oracle_twin(r)]
     for label, err in r.crashes:
         bad.append(("crash", "%s raised %s" % (label, err), {"call": label}))
     for label, path, upd, u in r.variants:
@@ -855,16 +1103,7 @@ def oracle(r):
                         {"call": label, "path": path,
                          "span": [u.first_point.t, u.last_point.t] if len(u._points) else None}))
     if hasattr(r, "alignment"):
-        j, u = r.alignment
-        ps = r.paths[(False, False, True)]
-        want = Counter(expected_notes(r, ps[j], True))
-        got = Counter(got_notes(u))
-        # any variant containing all the aligned notes with no more notes than variant j is acceptable
-        ids_w = {n[0] for n in want.elements() if n[5] == "note"}
-        ids_g = {n[0] for n in got.elements() if n[5] == "note"}
-        if not ids_w <= ids_g or sum(1 for n in got.elements() if n[5] == "note") > sum(1 for n in want.elements() if n[5] == "note"):
-            bad.append(("alignment", "unfold_part_alignment for the notes of variant %d returned a part with notes %r..." % (j, sorted(ids_g)[:6]),
-                        {"call": "unfold_part_alignment"}))
+        bad += [(k, m, {"call": "unfold_part_alignment", "alignment": r.alignment_input}) for k, m in oracle_alignment(r)]
     if r.fp0 != r.fp1:
         bad.append(("modified", "the original part was modified by path computation / unfolding", {}))
     return bad
@@ -940,45 +1179,88 @@ def gen_structure(rng, kind):
         bb.append(m)
     st["n"] = m
     st["bb"] = bb
+    st["blocks"] = blocks
     return st
 
 
+VOLTA_PATHS = {"1|2": 2, "1|2|3": 4, "1,2|3": 9, "1|2,3": 8, "1,2|3,4": 36}
+
+
+def est_paths(st):
+    """Rough number of paths of the all-variants policy (measured per kind of block)."""
+    e = 1
+    for b in st["blocks"]:
+        if b[0] == "rep":
+            e *= 2
+        elif b[0] == "nested":
+            e *= 6
+        elif b[0] == "volta":
+            e *= VOLTA_PATHS.get("|".join(",".join(str(x) for x in nums) for nums in b[2]), 40)
+    if st.get("dacapo") or st.get("dalsegno"):
+        e *= e + 1
+    return e
+
+
 def add_navigation(rng, st):
-    """D.C. / D.S. with optional Fine or To Coda / Coda at block boundaries (legal arrangements)."""
+    """D.C. / D.S. with optional Fine or To Coda / Coda at block boundaries (legal arrangements): all
+    combinations of positions are enumerated and one is drawn; the arrangements of known finding C09-K2 (the
+    segment the jump returns to ends at the jump or To Coda mark) are kept with reduced weight."""
     bb, n = st["bb"], st["n"]
-    inner = [b for b in bb if 0 < b < n]
-    jump = rng.choice(["dacapo", "dalsegno"])
-    al = rng.choice(["none", "fine", "fine", "coda", "coda"])
-    if al == "coda" or rng.random() < 0.25:
-        cand = [b for b in inner if b >= 2] or inner
-        if not cand:
-            return
-        jp = rng.choice(cand)
-    else:
-        jp = n
-    lo = 0
-    if jump == "dalsegno":
-        cand = [b for b in bb if b < jp]
-        sg = rng.choice(cand)
-        st["segno"] = [sg]
-        lo = sg
-    st[jump] = [jp]
-    mid = [b for b in bb if lo < b < jp]
-    if al == "fine" and mid:
-        st["fine"] = [rng.choice(mid)]
-    if al == "coda" and mid and jp < n:
-        st["tocoda"] = [rng.choice(mid)]
-        st["coda"] = [rng.choice([b for b in bb if jp <= b < n])]
+    bounds = sorted(set(bb))
+    allb = set(bounds) | {x for r in st["repeats"] for x in r} | {x for e in st["endings"] for x in e[:2]}
+    for attempt in range(6):
+        jump = rng.choice(["dacapo", "dalsegno"])
+        al = rng.choice(["none", "fine", "fine", "coda", "coda", "coda"])
+        cands = []
+        for jp in bounds:
+            if jp == 0:
+                continue
+            for sg in ([0] if jump == "dacapo" else [b for b in bounds if b < jp]):
+                if al == "none":
+                    cands.append((sg, None, jp, None))
+                for x in [b for b in bounds if sg < b < jp]:
+                    if al == "fine":
+                        cands.append((sg, x, jp, None))
+                    if al == "coda":
+                        cands += [(sg, x, jp, cd) for cd in bounds if jp <= cd < n]
+        if not cands:
+            continue
+        # a jump written at the very end and a jump written earlier are about equally likely
+        at_end = [c for c in cands if c[2] == n]
+        pool = at_end if (at_end and rng.random() < 0.5) else ([c for c in cands if c[2] < n] or cands)
+        sg, x, jp, cd = rng.choice(pool)
+        nb = min(b for b in allb | {jp} | ({x} if x is not None else set()) if b > sg)
+        k2 = nb == jp or (sg != 0 and al == "coda" and nb == x)
+        if k2 and attempt < 5 and rng.random() < 0.75:
+            continue
+        for k in ("segno", "dacapo", "dalsegno", "fine", "tocoda", "coda"):
+            st.pop(k, None)
+        if jump == "dalsegno":
+            st["segno"] = [sg]
+        st[jump] = [jp]
+        if al == "fine":
+            st["fine"] = [x]
+        if al == "coda":
+            st["tocoda"] = [x]
+            st["coda"] = [cd]
+        return
 
 
 TS_CHOICES = [(4, 4), (3, 4), (2, 4), (6, 8), (2, 2)]
 
 
 def gen_spec(rng, kind=None, rich=True, top=True):
-    kind = kind or rng.choices(["none", "simple", "volta", "nested", "nav"], [6, 30, 22, 12, 30])[0]
-    st = gen_structure(rng, "mixed" if kind == "nav" else kind)
-    if kind == "nav":
-        add_navigation(rng, st)
+    kind = kind or rng.choices(["none", "simple", "volta", "nested", "nav"], [5, 27, 22, 12, 34])[0]
+    # structures with more than 64 variants are not unfolded variant by variant (and cost seconds): one in ten
+    limit = 600 if rng.random() < 0.1 else 64
+    for attempt in range(60):
+        st = gen_structure(rng, "mixed" if kind == "nav" else kind)
+        if kind == "nav":
+            add_navigation(rng, st)
+            if not (st.get("dacapo") or st.get("dalsegno")):
+                continue
+        if est_paths(st) <= limit or attempt == 59:
+            break
     n, bb = st["n"], st["bb"]
     spec = {"kind": kind}
     for k in ("repeats", "endings", "volta_groups", "dacapo", "dalsegno", "segno", "fine", "coda", "tocoda"):
@@ -999,7 +1281,8 @@ def gen_spec(rng, kind=None, rich=True, top=True):
     # signature / division changes at block boundaries and at the boundaries of endings
     cp = set(bb) | {e[0] for e in st.get("endings", [])} | {e[1] for e in st.get("endings", [])}
     for m in range(n):
-        if m in cp and m > 0 and rich:
+        # ... and, less often, at a bar line INSIDE a block (strictly inside a repeated or skipped segment)
+        if (m in cp or rng.random() < 0.3) and m > 0 and rich:
             x = rng.random()
             if x < 0.12:
                 cur_ts = rng.choice([t for t in TS_CHOICES if t != cur_ts])
@@ -1068,7 +1351,7 @@ def gen_spec(rng, kind=None, rich=True, top=True):
                 j = min(len(v1) - 1, i + rng.randint(1, 5))
                 slurs.append([v1[i][0], v1[j][0]])
         for _ in range(rng.choice([0, 0, 0, 1, 2])):
-            cand = [i for i in range(len(v1) - 1) if v1[i][1] == v1[i + 1][1]]
+            cand = [i for i in range(len(v1) - 1) if v1[i][1] == v1[i + 1][1] or rng.random() < 0.15]
             if cand:
                 i = rng.choice(cand)
                 tuplets.append([v1[i][0], v1[i + 1][0]])
@@ -1214,14 +1497,32 @@ def c_qd(tbl):
 
 
 def c_case(r, variants):
-    vs = []
+    vs, es = [], []
     for label, path, upd, u in variants:
         rows, _ = dump_variant(u, r.intern)
         rows = [x for x in rows if x[1] != CLS["Clef"]]
         vs.append("(mkV %s %s %s %s)" % (czl(path), cbool(upd), clist([c_row(x) for x in rows]), c_qd(qd_table(u))))
-    return "(mkC %s %s %s %s %s %s)" % (
+        es.append(getattr(u, "_pv_entry", "EIter"))
+    return "(mkCE (mkC %s %s %s %s %s %s) %s)" % (
         c_marks(r.marks), clist([c_obj(o) for o in r.objs]), c_qd(r.qd), clist([c_seg(s) for s in r.segs]),
-        clist([c_paths(pol, r.paths[pol]) for pol in POLICIES]), clist(vs))
+        clist([c_paths(pol, r.paths[pol]) for pol in POLICIES]), clist(vs), clist(es))
+
+
+def pick_variants(r, sub, small=False):
+    """The unfolded parts sent to the model: one of the maximal ones, the minimal one, one of
+    new_part_from_path / make_score_variants, the part returned by unfold_part_alignment (else one more of
+    iter_unfolded_parts), one of iter_unfolded_parts."""
+    mx = [v for v in r.variants if v[0].startswith("unfold_part_maximal")]
+    vs = ([sub.choice(mx)] if mx else []) + [v for v in r.variants if v[0].startswith("unfold_part_minimal")]
+    others = [v for v in r.variants if v[0].startswith(("new_part", "make_score"))]
+    if others:
+        vs.append(sub.choice(others))
+    its = [v for v in r.variants if v[0].startswith("iter_")]
+    al = [v for v in r.variants if v[0].startswith("unfold_part_alignment")]
+    vs += al
+    if its:
+        vs += sub.sample(its, min(1 if (al or small) else 2, len(its)))
+    return vs
 
 
 # ----------------------------------------------------------------------------
@@ -1334,38 +1635,82 @@ def classify(spec):
     return feats
 
 
+def is_k2(obj):
+    """Matcher of known finding C09-K2: get_paths raises on an arrangement whose jump (D.C. / D.S.) returns to a
+    segment that ends at the jump mark itself or (not being the first segment) at the To Coda mark."""
+    spec = (obj.get("spec_after_edit") if obj.get("step") == "after edit" else obj.get("spec")) or {}
+    return obj.get("kind") == "total" and bool(spec.get("measures")) and nav_reference(spec, "max", True) == "K2"
+
+
+def work(item):
+    """One case in a worker process: implementation, direct oracle, Coq term.  Everything returned is plain data."""
+    idx, origin, spec, seed = item
+    sub = __import__("random").Random(seed)
+    try:
+        steps = examine_history(spec, rng=sub)
+    except Exception as e:  # building the part failed: harness problem, report loudly
+        return {"idx": idx, "error": "%s: %s" % (type(e).__name__, e), "steps": []}
+    out = {"idx": idx, "steps": []}
+    for r, bad, skip, spec_n, label in steps:
+        st = {"label": label, "skip": skip, "bad": bad}
+        if bad and label == "after edit":
+            st["spec_after_edit"] = spec_n
+        if r is not None:
+            st.update(nsegs=len(r.segs), nvariants=len(r.variants),
+                      branching=any(len(x[3]) + len(x[4]) >= 2 for x in r.segs),
+                      raises=any(v is None for v in r.paths.values()),
+                      key=json.dumps([r.marks, spec_n.get("notes")], sort_keys=True),
+                      entries=sorted({v[0].split("(")[0].split("[")[0] for v in r.variants}),
+                      nav_ref=nav_reference(spec_n, "max", True) is not None,
+                      sample={"spec": spec_n, "step": label, "segments": r.segs, "paths_all": r.paths[POLICIES[0]]})
+            if skip is None and not (origin == "small" and len(r.segs) > 5):
+                st["term"] = c_case(r, pick_variants(r, sub, small=(origin == "small")))
+        out["steps"].append(st)
+    return out
+
+
 def run(ctx):
     warnings.filterwarnings("ignore")
+    import multiprocessing
+    import os
+    from concurrent.futures import ThreadPoolExecutor
     ctx.rule = ("cases = HISTORIES on measure-aligned parts built through the public API from a structured generator "
-                "(weights: no structure 6, independent simple repeats 30, repeats with 2-3 endings incl. comma numbers "
-                "22, nested repeats 12, D.C./D.S. with Fine or To Coda/Coda plus repeats 30; decorations: ties over bar "
-                "lines, slurs over up to 5 notes, tuplets, grace chains, restated/changed time and key signatures, "
-                "clefs, division changes, fermatas, pages/systems; first time point > 0 in 20 %; add_segments(part) "
-                "called beforehand in 25 %).  Step 1: every public entry point (get_paths x 6 policies, "
-                "unfold_part_maximal x update_ids x ignore_leaps, unfold_part_minimal, iter_unfolded_parts, "
-                "new_part_from_path, make_score_variants, unfold_part_alignment); in 12 % also "
-                "unfold_part_maximal/minimal on a Score holding the part and a second one.  Step 2 (25 %): the SAME "
-                "Part object is edited (simple repeat added / removed, a note added) and everything is run again.  "
-                "Every case is also compared with its twin starting at another time.  thorough adds every structure "
-                "over 5 measures with <= 2 repeats / one volta group x D.C./D.S./Fine/Coda arrangements having <= 5 "
-                "segments, each at first time 0 and 3.  Distinct non-trivial = distinct (marks, notes) whose segment "
-                "table has a segment with >= 2 destinations.")
+                "(weights: no structure 5, independent simple repeats 27, repeats with 2-3 endings incl. comma numbers "
+                "22, nested repeats 12, D.C./D.S. with nothing / Fine / To Coda+Coda (1:2:3; jump at the very end or "
+                "earlier 1:1; arrangements of known finding C09-K2 at a quarter of their natural weight) plus repeats "
+                "34; structures with more than 64 variants in one case of ten only; decorations: ties over bar "
+                "lines, slurs over up to 5 notes, tuplets (some over a bar line), grace chains, restated/changed time "
+                "and key signatures, clefs and division changes at block/ending boundaries and inside blocks, "
+                "fermatas, pages/systems; first time point > 0 in 20 %; add_segments(part) called beforehand in "
+                "25 %).  Step 1: every public entry point (get_paths x 6 policies, unfold_part_maximal x update_ids "
+                "x ignore_leaps, unfold_part_minimal, iter_unfolded_parts, new_part_from_path, make_score_variants, "
+                "unfold_part_alignment with generated alignments: subsets, notes of two variants, deletions, "
+                "insertions, unknown ids); in 12 % also unfold_part_maximal/minimal on a Score holding the part and "
+                "a second one.  Step 2 (25 %): the SAME Part object is edited (simple repeat added / removed, a note "
+                "added) and everything is run again.  Cases with a da capo / dal segno / first ending from the "
+                "beginning / first time > 0 (and a quarter of the others) are compared with their twin starting at "
+                "another time.  thorough adds every structure over 5 measures with <= 2 repeats / one volta group x "
+                "D.C./D.S./Fine/Coda arrangements having <= 5 segments, each at first time 0 and 3.  Distinct "
+                "non-trivial = distinct (marks, notes) whose segment table has a segment with >= 2 destinations.")
     ctx.trusted = ["Coq 8.16.1 kernel incl. vm_compute",
                    "harness/props/c09.py: abstraction of a Part (marks in iter_all order, object dump in time-point/"
                    "starting_objects order, canonical dump of unfolded parts) and the Python oracle",
                    "determinism of partitura's unfolding for a given Part"]
     ctx.assumptions = ["fewer than 60 segments; ending numbers 1..9",
-                       "paths of 60 or more segments / more than 5000 paths / the implementation running > 8 s on a case are counted and "
-                       "not compared (model fuel 64)",
+                       "paths of 60 or more segments / more than 5000 paths / the implementation using more than 20 s "
+                       "of CPU time on a case are counted and not compared (model fuel 64); an expired guard is "
+                       "never reported as a failure of the implementation",
                        "Clef copies are not compared with the model (the rule compares a clef with the previous clef "
                        "of any staff; the property does not name clefs)",
-                       "original note ids are distinct"]
-    ok, why = ctx.coq_props(expect_min=20)
+                       "original note ids are distinct",
+                       "navigation: the reading of the notation (nav_reference) is defined for one jump, non-nested "
+                       "repeats/endings and marks outside repeated sections; a repeated section ending at the jump "
+                       "mark and a Coda directly at the jump mark followed by repeats are compared with the model only"]
+    ctx.matchers["C09-K2"] = is_k2
     rng = ctx.rng
     quick = ctx.tier == "quick"
-    n_random = 150 if quick else 2400
+    n_random = 200 if quick else 2400
     specs = []
-    import os
     cdir = os.path.join(core.VERIF, "corpus", "C09")
     if os.path.isdir(cdir):
         for fn in sorted(os.listdir(cdir)):
@@ -1377,31 +1722,54 @@ def run(ctx):
     if not quick:
         for s in small_scope_specs():
             specs.append(("small", s))
+    items = [(i, origin, spec, rng.getrandbits(32)) for i, (origin, spec) in enumerate(specs)]
+    # the implementation runs in worker processes while Coq checks the theorems; the model is evaluated on the
+    # cases of the first workers while the last ones are still running
+    nproc = max(1, min(core.NJOBS, len(items)))
+    pool = multiprocessing.get_context("fork").Pool(nproc)
+    results = pool.imap(work, items, chunksize=2 if quick else 8)
+    ok, why = ctx.coq_props(expect_min=34)
+    shard = 24 if quick else 60
+    executor = ThreadPoolExecutor(max_workers=max(1, core.NJOBS))
+    futures = []          # (first global index, future)
     terms, kept = [], []
+    pending = [0]         # number of terms already handed to Coq
+
+    def flush(force=False):
+        while ok and (len(terms) - pending[0] >= shard or (force and len(terms) > pending[0])):
+            lo, hi = pending[0], min(len(terms), pending[0] + shard)
+            pending[0] = hi
+            futures.append((lo, executor.submit(
+                ctx.coq_failing, "corr%d" % len(futures), "From PV Require Import Model.C09 Model.C09_api.", "",
+                terms[lo:hi], "fun c => Z.eqb (check_case_api c) 0", hi - lo, 1500)))
+
     nviol = 0
-    for origin, spec in specs:
-        sub = __import__("random").Random(rng.getrandbits(32))
-        try:
-            steps = examine_history(spec, rng=sub)
-        except Exception as e:  # building the part failed: harness problem, report loudly
-            ctx.violation("harness could not build/run spec: %r" % (e,), {"spec": spec, "kind": "harness"}, no_input=True)
+    for res in results:
+        origin, spec = specs[res["idx"]]
+        if "error" in res:
+            ctx.violation("harness could not build/run spec: %s" % res["error"], {"spec": spec, "kind": "harness"}, no_input=True)
             continue
         ctx.count("kind:" + spec.get("kind", "?"))
         for f in classify(spec):
             ctx.count("feature:" + f)
-        for r, bad, skip, spec_n, label in steps:
+        for st in res["steps"]:
+            label, skip, bad = st["label"], st["skip"], st["bad"]
             if skip == "timeout":
                 ctx.count("skipped:timeout")
                 continue
-            if origin == "small" and len(r.segs) > 5:
+            if origin == "small" and st["nsegs"] > 5:
                 ctx.count("small:more_than_5_segments")
                 continue
             ctx.evaluations += 1
             ctx.count("step:" + label)
-            ctx.count("variants", len(r.variants))
-            if any(len(s[3]) + len(s[4]) >= 2 for s in r.segs):
-                ctx.nontrivial(json.dumps([r.marks, spec_n.get("notes")], sort_keys=True))
-            if any(v is None for v in r.paths.values()):
+            ctx.count("variants", st["nvariants"])
+            for e in st["entries"]:
+                ctx.count("entry:" + e)
+            if st["nav_ref"]:
+                ctx.count("navigation:compared_with_the_reading_of_the_notation")
+            if st["branching"]:
+                ctx.nontrivial(st["key"])
+            if st["raises"]:
                 ctx.count("outcome:get_paths_raises")
             if bad and nviol < 6:
                 seen_kinds = set()
@@ -1410,50 +1778,55 @@ def run(ctx):
                         continue
                     seen_kinds.add(kind)
                     obj = {"spec": spec, "kind": kind, "message": msg, "step": label}
+                    if "spec_after_edit" in st:
+                        obj["spec_after_edit"] = st["spec_after_edit"]
                     obj.update(extra)
-                    if origin != "small":
+                    if origin != "small" and not is_k2(obj):
                         obj["spec"] = shrink(spec, kind)      # shrink only what will be reported
-                    res = ctx.violation("C09 %s: %s" % (kind, msg), obj)
-                    if res != "known":
+                    res_v = ctx.violation("C09 %s: %s" % (kind, msg), obj)
+                    if res_v != "known":
                         nviol += 1
             if skip == "too_long":
                 ctx.count("skipped:too_long_for_model")
                 continue
-            # variants sent to the model: maximal (both update_ids), minimal, new_part_from_path,
-            # make_score_variants, up to 2 of iter_unfolded_parts
-            mx = [v for v in r.variants if v[0].startswith("unfold_part_maximal")]
-            vs = ([sub.choice(mx)] if mx else []) + [v for v in r.variants if v[0].startswith("unfold_part_minimal")]
-            others = [v for v in r.variants if v[0].startswith(("new_part", "make_score"))]
-            if others:
-                vs.append(sub.choice(others))
-            its = [v for v in r.variants if v[0].startswith("iter_")]
-            if its:
-                vs += sub.sample(its, min(2 if origin != "small" else 1, len(its)))
-            ctx.sample({"spec": spec_n, "step": label, "segments": r.segs, "paths_all": r.paths[POLICIES[0]]}, limit=3)
-            terms.append(c_case(r, vs))
-            kept.append((spec, label))
+            ctx.sample(st["sample"], limit=3)
+            if "term" in st:
+                terms.append(st["term"])
+                kept.append((spec, label))
+                flush()
+    pool.close()
+    pool.join()
     ctx.log("implementation + oracle done on %d steps; evaluating the model on %d" % (ctx.evaluations, len(terms)))
     if ok:
-        try:
-            failing = ctx.coq_failing("corr", "From PV Require Import Model.C09.", "", terms,
-                                      "fun c => Z.eqb (check_case c) 0", shard=25 if quick else 60, timeout=1500)
-        except RuntimeError as e:
-            failing = None
-            ctx.obligation("correspondence: model evaluation", False, str(e)[-1500:])
-            ctx.violation("Coq could not evaluate the C09 model on the generated cases: " + str(e)[-800:],
+        flush(force=True)
+        failing, err = [], None
+        for lo, fut in futures:
+            try:
+                failing += [lo + k for k in fut.result()]
+            except RuntimeError as e:
+                err = str(e)
+        executor.shutdown()
+        if err is not None:
+            ctx.obligation("correspondence: model evaluation", False, err[-1500:])
+            ctx.violation("Coq could not evaluate the C09 model on the generated cases: " + err[-800:],
                           {"kind": "harness"}, no_input=True)
-        if failing is not None:
+        else:
+            failing.sort()
             ctx.obligation("correspondence: make_segments = segment boundaries of part.segments, get_paths = Path.path "
                            "lists as sets (3 policies x ignore_leaps), variant rows (notes, rests, slurs, tuplets, "
                            "measures ... row by row; time/key signatures by the signature in force; fermatas up to the "
-                           "extra copy at a segment end), quarter durations in force, on %d steps" % len(terms),
+                           "extra copy at a segment end), quarter durations in force, and per dumped part the path its "
+                           "entry point takes in the model (unfold_part_maximal/minimal: paths[0] of the policy, "
+                           "iter_unfolded_parts / make_score_variants / new_part_from_path: a path of the policy, "
+                           "unfold_part_alignment: an unbeaten variant), on %d steps" % len(terms),
                            not failing, failing[:5])
             for i in failing[:4]:
-                which = ctx.coq_eval("From PV Require Import Model.C09.", "check_case %s" % terms[i])
-                ctx.violation("model and implementation disagree (check_case: 1 segment boundaries, 2 paths, 3 variant rows, "
-                              "4 quarter durations): %s" % which[-200:],
+                which = ctx.coq_eval("From PV Require Import Model.C09 Model.C09_api.", "check_case_api %s" % terms[i])
+                ctx.violation("model and implementation disagree (check_case_api: 1 segment boundaries, 2 paths, 3 variant "
+                              "rows, 4 quarter durations, 5 path taken by an entry point): %s" % which[-200:],
                               {"spec": kept[i][0], "step": kept[i][1], "kind": "correspondence"})
     else:
+        executor.shutdown()
         ctx.violation("proof obligations of Props/C09.v no longer check: " + why, {"theorem_or_build": why}, no_input=True)
     ctx.extra["exhaustive"] = not quick
     ctx.extra["exhaustive_note"] = ("thorough: all structures over 5 measures with <= 2 repeats or one two-ending volta "
